@@ -12,8 +12,8 @@ Local Open Scope Z_scope.
    its loops: destination rectangle (x1,y1,w1,h1), block size (areaX, areaY), and for every
    destination offset i < w1 (j < h1) the source column (row) where its block starts [gsxs, gsys]
    resp. of the pixel that is copied for colour maps [gcxs, gcys].
-   Code as it is: gsxs = [ScaleX(x1) + i*areaX], gcxs = [(x1+i)*areaX];
-   proposed repair notes/fix_C17_2.diff: both = [ScaleX(x1+i)] (ScaleF.upd_geomF). *)
+   The tree (since /repo commit d58ea84): both = [ScaleX(x1+i)];
+   before it: gsxs = [ScaleX(x1) + i*areaX], gcxs = [(x1+i)*areaX] (ScaleF.upd_geomF, F17b). *)
 Record geom : Type := mkgeom { gx1 : Z; gy1 : Z; gw1 : Z; gh1 : Z; gax : Z; gay : Z;
                                gsxs : list Z; gsys : list Z; gcxs : list Z; gcys : list Z }.
 
